@@ -19,6 +19,7 @@
 package main
 
 import (
+	"bufio"
 	"crypto/sha256"
 	"encoding/hex"
 	"fmt"
@@ -82,6 +83,22 @@ func buildOnce(kind, path, vname string) (b built) {
 		return built{status: "wat2wasm", msg: err.Error(), wat: wat}
 	}
 	return built{status: "ok", wat: wat, wasm: bin}
+}
+
+// lineLoop: like vh.Loop, but flushes after EVERY line: the compiler may end the process (logger.Fatal =
+// os.Exit) in the middle of a batch, and the check must see the answers given so far.
+func lineLoop(f func(fields []string, line string) string) {
+	in := bufio.NewReaderSize(os.Stdin, 1<<20)
+	for {
+		line, err := in.ReadString('\n')
+		if len(line) > 0 {
+			l := strings.TrimRight(line, "\r\n")
+			os.Stdout.WriteString(vh.Safe(func() string { return f(strings.Fields(l), l) }) + "\n")
+		}
+		if err != nil {
+			return
+		}
+	}
 }
 
 func sha(b []byte) string { h := sha256.Sum256(b); return hex.EncodeToString(h[:16]) }
@@ -170,7 +187,7 @@ func members(path string, k int) string {
 func main() {
 	if len(os.Args) >= 3 && os.Args[1] == "members" {
 		k, _ := strconv.Atoi(os.Args[2])
-		vh.Loop(func(f []string, line string) string {
+		lineLoop(func(f []string, line string) string {
 			if len(f) < 1 {
 				return "bad-op"
 			}
@@ -197,7 +214,7 @@ func main() {
 	if n < 1 {
 		n = 1
 	}
-	vh.Loop(func(f []string, line string) string {
+	lineLoop(func(f []string, line string) string {
 		if len(f) < 2 {
 			return "bad-op"
 		}
